@@ -236,21 +236,23 @@ def op_menu(tier, max_size):
 
 
 @contextlib.contextmanager
-def shadowed_environment():
+def shadowed_environment(global_rng=True):
     """Module-attribute shadowing needed to keep every random draw symbolic."""
     import cotengra.pathfinders.path_simulated_annealing as SA
     import cotengra.slicer as SL
     import cotengra.utils as U
 
-    saved = (SA.math, SL.log, U.random)
+    saved = (SA.math, SL.log, U.random, U.math)
     g = stubs.GlobalRandomStub()
     try:
         SA.math = stubs.math_proxy_with_symlog()
         SL.log = stubs.sym_log_any
-        U.random = g
+        if global_rng:
+            U.random = g
+            U.math = stubs.math_proxy_with_symlog()  # GumbelBatchedGenerator: -log(-log(u))
         yield g
     finally:
-        SA.math, SL.log, U.random = saved
+        SA.math, SL.log, U.random, U.math = saved
 
 
 def explore_histories(rec, initial, menu, K, check_fn, env, max_states_per_level=80, max_paths_per_op=400, deadline_per_op=20.0, notes=None):
